@@ -799,6 +799,15 @@ func (m *Monitors) stateChecks(n *Node, pre, post *raft.VerifState, c *Cause) {
 						n.ID, post.Term, t, ok, idx, idx, cr.Term, cr.FirstCommitTerm)
 					break
 				}
+				// same index and term but another entry (two leaderships of
+				// one term wrote different entries): the committed entry is
+				// just as absent
+				if e := n.cachedEntry(idx); e != nil && (e.GetType() != cr.Type || dataHash(e.GetData()) != cr.DataHash) {
+					m.viol([]string{"C04"}, "leader_completeness", "c04.leader_holds_other_entry",
+						"node %d became leader of term %d but at index %d it holds a different entry with the term (%d) of the one committed in term %d",
+						n.ID, post.Term, idx, cr.Term, cr.FirstCommitTerm)
+					break
+				}
 			}
 		}
 	}
@@ -927,6 +936,31 @@ func (m *Monitors) c08State(n *Node, pre, post *raft.VerifState, c *Cause) {
 	for _, a := range acks {
 		if a != nil && a.GetType() == pb.MsgStorageAppendResp && a.GetTerm() < pre.Term {
 			m.s.Stats.inc("storage.ack_of_older_term")
+			if a.GetIndex() != 0 && n.Up {
+				if t, err := n.RN.VerifLogTerm(a.GetIndex()); err == nil && t == a.GetLogTerm() && a.GetIndex() >= post.UnstableOffset {
+					// the stale acknowledgement names an entry that is (again)
+					// in the unstable log: the ABA window of newStorageAppendRespMsg
+					m.s.Stats.inc("storage.ack_of_older_term_matches_unstable")
+					aba := false
+					for _, q := range n.AppendQ {
+						for _, e := range q.GetEntries() {
+							if e.GetIndex() == a.GetIndex() && e.GetTerm() != a.GetLogTerm() {
+								aba = true
+							}
+						}
+					}
+					if t, ok := n.Disk.termAt(a.GetIndex()); (ok && t != a.GetLogTerm()) || (!ok && a.GetIndex() > n.Disk.last()) {
+						// the acknowledged write was since replaced (or cut
+						// off) in storage by a later one
+						aba = true
+					}
+					if aba {
+						// ... while a different term at that index is in
+						// storage or in a write queued behind: true ABA
+						m.s.Stats.inc("storage.ack_aba_older_term")
+					}
+				}
+			}
 			if a.GetSnapshot() != nil {
 				m.s.Stats.inc("storage.snapshot_ack_of_older_term")
 			}
